@@ -700,8 +700,40 @@ def push_outside(rng, tree, valid):
     return v
 
 
+def text_forms(rng, x):
+    """the number / code `x` written as text, the ways int() / float() / a lenient parser would still read it: "a JSON
+    string taken as a number" at a leaf that holds exactly that number"""
+    if isinstance(x, bool):
+        return [str(x), str(x).lower(), str(int(x))]
+    forms = [str(x), ' %s' % x, '%s\n' % x, '+%s' % x if x >= 0 else '%s ' % x]
+    if isinstance(x, int):
+        forms += ['%d.0' % x, '%de0' % x, '%#x' % x, '0%d' % x if x >= 0 else '-0%d' % -x, '%d_0' % x]
+    else:
+        forms += [repr(x), '%g' % x, '%.3f' % x]
+    return [rng.choice(forms[:2]), rng.choice(forms[2:])]
+
+
 def leaf_relatives(rng, lt, pv, wire):
     """offers that are (or look) numerically equal to the leaf value `pv` held, of another kind, or just beside it"""
+    out = _leaf_relatives(rng, lt, pv, wire)
+    t = lt['t']
+    try:
+        if t == 'enum':
+            out += text_forms(rng, int(pv.value))
+        elif t == 'int':
+            out += text_forms(rng, int(pv))
+        elif t == 'bool':
+            out += text_forms(rng, bool(pv))
+        elif t == 'double' or (t == 'scaled' and not wire):
+            out += text_forms(rng, float(pv))
+        elif t == 'scaled':
+            out += text_forms(rng, int(round(float(pv) / _f(lt['scale']))))
+    except (OverflowError, ValueError):
+        pass
+    return out
+
+
+def _leaf_relatives(rng, lt, pv, wire):
     t = lt['t']
     out = []
     if t == 'enum':
